@@ -465,6 +465,11 @@ func (r *Rect) decode(d *decoder) {
 	r.Lat.Hi = d.readFloat64()
 	r.Lng.Lo = d.readFloat64()
 	r.Lng.Hi = d.readFloat64()
+	if d.err == nil && !r.IsValid() {
+		// Latitudes beyond +-pi/2, longitudes beyond +-pi, or one interval
+		// empty and the other not; HausdorffDistance panics on such a value.
+		d.err = fmt.Errorf("invalid rect (lat %v, lng %v)", r.Lat, r.Lng)
+	}
 }
 
 // DistanceToLatLng returns the minimum distance (measured along the surface of the sphere)
